@@ -681,7 +681,7 @@ def rule_e(ctx):
     ps = [p for p in ctx.paths(f, T, stable_attrs=True, inline_depth=1) if p.outcome == 'return']
     ok = bool(ps)
     for p in ps:
-        names = [e.data.get('name') for e in p.events if e.kind == 'call']
+        names = [e.data.get('name') for e in p.events if e.kind == 'call' and e.data.get('how') != 'external']
         if sorted(names) != ['_compute_data_metadata_length', '_compute_frame_prefix_length']:
             ok = False
         t = strip_epoch(p.value.term)
